@@ -161,7 +161,11 @@ func (f *Func) AssignIDs() error {
 				got := n.ID()
 				return errors.Errorf("invalid local ID in function %q, expected %s, got %s", f.Ident(), enc.LocalID(want), enc.LocalID(got))
 			}
-			n.SetID(id)
+			if n.ID() != id {
+				// Only write when the ID changes: printers running on other
+				// goroutines read the ID without holding the lock.
+				n.SetID(id)
+			}
 			id++
 		}
 		return nil
